@@ -245,6 +245,48 @@ func init() {
 		"errors.Is": func(in *Interp, _ *frame, a []Value) (Value, bool) {
 			return in.errorsIs(a[0].(Iface), a[1].(Iface)), true
 		},
+		"errors.As": func(in *Interp, _ *frame, a []Value) (Value, bool) {
+			err := a[0].(Iface)
+			target := a[1].(Iface)
+			tp, ok := target.V.(PtrV)
+			pt, isPT := target.T.Underlying().(*types.Pointer)
+			if !ok || !isPT || tp.R == nil {
+				in.goPanic("errors: target must be a non-nil pointer")
+			}
+			want := pt.Elem()
+			for i := 0; i < 32 && err.T != nil; i++ {
+				if it, isI := want.Underlying().(*types.Interface); isI {
+					if types.Implements(err.T, it) {
+						tp.R.Set(err)
+						return in.tf.T, true
+					}
+				} else if types.Identical(err.T, want) {
+					tp.R.Set(err.V)
+					return in.tf.T, true
+				}
+				p, isP := err.V.(PtrV)
+				if !isP || p.R == nil {
+					break
+				}
+				w, has := in.wraps[p.R.Key()]
+				if !has {
+					break
+				}
+				err = w
+			}
+			return in.tf.F, true
+		},
+		"unicode.IsControl": func(in *Interp, _ *frame, a []Value) (Value, bool) {
+			r := a[0].(IntV).T
+			tf := in.tf
+			lat := tf.Cmp(OpUlt, r, tf.BV(32, 0x100))
+			if !in.branch(lat) {
+				in.unsupported("unicode.IsControl beyond Latin-1 on a symbolic rune")
+			}
+			c0 := tf.Cmp(OpUlt, r, tf.BV(32, 0x20))
+			c1 := tf.And(tf.Cmp(OpUle, tf.BV(32, 0x7f), r), tf.Cmp(OpUlt, r, tf.BV(32, 0xa0)))
+			return tf.Or(c0, c1), true
+		},
 		"errors.Unwrap": func(in *Interp, _ *frame, a []Value) (Value, bool) {
 			e := a[0].(Iface)
 			if p, ok := e.V.(PtrV); ok && p.R != nil {
